@@ -118,6 +118,12 @@ pub fn env_files(thorough: bool) -> Report {
             fs::write(l.join(d).join("D.default"), format!("d-{tag}")).unwrap(); fs::write(l.join(d).join("D2.default"), format!("d2-{tag}")).unwrap();
             fs::write(l.join(d).join("O.override"), format!("o-{tag}\n")).unwrap();
             fs::write(l.join(d).join("N.A.ME.override"), format!("dotted-{tag}")).unwrap();
+            // unknown suffixes, also ones that are not UTF-8, are ignored (not read as suffix-less = override)
+            use std::os::unix::ffi::OsStringExt;
+            fs::write(l.join(d).join(std::ffi::OsString::from_vec(b"O.\xFF\xFE".to_vec())), "stale").unwrap();
+            fs::write(l.join(d).join(std::ffi::OsString::from_vec(b"A.app\xE9nd".to_vec())), "stale").unwrap();
+            fs::write(l.join(d).join(std::ffi::OsString::from_vec(b"GHOST.\xFF".to_vec())), "stale").unwrap();
+            fs::write(l.join(d).join("GHOST2.bak"), "stale").unwrap();
         }
         match LayerEnv::read_from_layer_dir(l) {
             Err(e) => r.violation("read_rules", "read failed on a hand-made CNB layout", "all suffixes in env, env.build, env.launch, env.launch/web".into(), "Ok".into(), format!("{e}")),
@@ -132,6 +138,7 @@ pub fn env_files(thorough: bool) -> Report {
                     let mut a = String::from("a0"); let mut pv = String::from("p0"); let mut d2 = None; let mut o = String::new(); let mut n = String::new();
                     for c in &chain { a = format!("{a}|+{c}"); pv = format!("{c}+{pv}"); if d2.is_none() { d2 = Some(format!("d2-{c}")); } o = format!("o-{c}\n"); n = format!("dotted-{c}"); }
                     let want = [("A", a), ("P", pv), ("D", "keep".to_string()), ("D2", d2.unwrap()), ("O", o), ("N.A.ME", n)];
+                    for g in ["GHOST", "GHOST2"] { if got.get(g).is_some() { r.violation("read_rules", "files with an unknown suffix (also a non-UTF-8 one) are ignored", format!("directory {d}, file {g}.<unknown suffix>"), "variable unset".into(), format!("{:?}", got.get(g))); } }
                     for (k, v) in want { if got.get(k).map(|x| x.to_string_lossy().to_string()) != Some(v.clone()) { r.violation("read_rules", "a hand-made CNB layout is read into the right scope with the right behaviour for every suffix", format!("directory {d}, variable {k}, start A=a0 P=p0 D=keep O=o0"), v, format!("{:?}", got.get(k))); } }
                 }
             }
